@@ -80,6 +80,7 @@ Qed.
 Lemma charge_fee_nonbank req off payer module s s' : charge_fee req off payer module s = LOk s' -> nonbank_eq s s'.
 Proof.
   unfold charge_fee. destruct req as [r|]; [|intros H; inversion H; apply nonbank_eq_refl].
+  destruct (negb (0 <? c_amount r)); [intros H; inversion H; apply nonbank_eq_refl|].
   destruct off as [o|]; [|discriminate].
   destruct (negb (bytes_eqb _ _)); [discriminate|]. destruct (negb (coin_gte _ _)); [discriminate|].
   destruct (_ <? _); [discriminate|]. intros H. lstep H as s1 Hs1.
